@@ -183,6 +183,8 @@ func specSort(s string) string {
 		return "Bool"
 	case "string", "Str":
 		return "Str"
+	case "ByteArr":
+		return "(Array Int Int)" // a Go byte array ([N]byte) as a value
 	}
 	return s
 }
